@@ -460,7 +460,15 @@ def _solver_params(model):
     if solver is None or not hasattr(solver, "__dict__"):
         return None
     out = {}
+    import inspect
+    try:
+        ctor = set(inspect.signature(type(solver).__init__).parameters)
+    except (TypeError, ValueError):
+        ctor = None
     for k, v in vars(solver).items():
+        if ctor is not None and k not in ctor:
+            continue      # only what the user passed to the constructor (a private cache is
+            #               judged by what it does to results, not by its existence)
         if isinstance(v, (bool, np.bool_, int, float, np.integer, np.floating)):
             out[k] = ("num", repr(float(v)))        # compared by value, not by type
         elif isinstance(v, (str, type(None))):
